@@ -391,12 +391,12 @@ func main() {
 		switch {
 		case strings.Contains(out, "WARNING: DATA RACE"):
 			v := Violation{Sig: id + "|data-race|free-running-race-detector", Detail: "go test -race on the un-instrumented parser with the documented consumer loops reports a data race:\n" + tail(out, 3000)}
-			frags[0].ViolCount[v.Sig]++
-			frags[0].Violations = append(frags[0].Violations, v)
+			violCount[v.Sig]++
+			viols = append(viols, v)
 		case strings.Contains(out, "VERIF-RACE-HANG"):
 			v := Violation{Sig: id + "|free-running-consumer-hangs", Detail: tail(out, 2000)}
-			frags[0].ViolCount[v.Sig]++
-			frags[0].Violations = append(frags[0].Violations, v)
+			violCount[v.Sig]++
+			viols = append(viols, v)
 		case err != nil:
 			cleanup()
 			die(2, "HARNESS-ERROR: race pass failed to run:\n%s", tail(out, 3000))
